@@ -461,7 +461,7 @@ func (b *UnsafeLinkBuffer) MallocAck(n int) (err error) {
 	}
 	// discard the rest
 	for node := b.write.next; node != nil; node = node.next {
-		node.malloc, node.refer, node.buf = node.off, 1, node.buf[:node.off]
+		node.malloc, node.buf = node.off, node.buf[:node.off]
 	}
 	return nil
 }
@@ -596,13 +596,19 @@ func (b *UnsafeLinkBuffer) WriteDirect(extra []byte, remainLen int) error {
 
 	if remainLen > 0 {
 		// split a single buffer node to originNode and newNode
+		// newNode shares the memory of origin, so it holds a reference on the owner of
+		// that memory (like a node made by Refer) and never frees it by itself: the block
+		// goes back to the pool only when origin, newNode and every Slice of them are released.
 		newNode := newLinkBufferNode(0)
 		newNode.off = malloc
 		newNode.buf = origin.buf[:malloc]
 		newNode.malloc = origin.malloc
-		newNode.unsetFlag(flagUnmanaged)
+		newNode.origin = origin
+		if origin.origin != nil {
+			newNode.origin = origin.origin
+		}
+		atomic.AddInt32(&newNode.origin.refer, 1)
 		origin.malloc = malloc
-		origin.setFlag(flagUnmanaged)
 
 		// link nodes
 		dataNode.next = newNode
